@@ -159,7 +159,27 @@ struct Ctx {
             fprintf(out, "{\"t\":\"sample\",\"phase\":\"%s\",\"case\":%ld,\"desc\":\"%s\"}\n", jesc(phase_).c_str(), idx, jesc(desc).c_str());
     }
     // report a property violation for the current case
+    // --c15 1 : the harness is being run (sanitised) for property C15: functional verdicts are muted, and every
+    // library assertion / unexpected exception becomes a violation identified by its call site
+    bool c15() const { return opt.count("c15") > 0; }
+    static std::string assert_sig(const std::string &what) {
+        size_t e = what.find("expression: "), l = what.find("at line "), f = what.find(" of ", l == std::string::npos ? 0 : l);
+        if (e == std::string::npos || l == std::string::npos || f == std::string::npos) return what.substr(0, 140);
+        std::string expr = what.substr(e + 12, what.find('\n', e) - e - 12), line = what.substr(l + 8, f - l - 8), file = what.substr(f + 4, what.find('\n', f) - f - 4);
+        size_t sl = file.rfind('/'); if (sl != std::string::npos) file = file.substr(sl + 1);
+        return expr.substr(0, 110) + " @ " + file + ":" + line;
+    }
+    void library_abort(const std::string &what, const std::string &desc) {
+        std::string sig = assert_sig(what);
+        cnt["aborted_by_assert"]++; cls("abort", sig);
+        if (c15()) raw_violation("assertion_failed", {"site:" + sig}, desc, what.substr(0, 400));
+    }
     void violation(const std::string &clause, const std::vector<std::string> &cls_, const std::string &desc,
+                   const std::string &observed = "") {
+        if (c15()) { cnt["muted_functional_verdicts"]++; return; }
+        raw_violation(clause, cls_, desc, observed);
+    }
+    void raw_violation(const std::string &clause, const std::vector<std::string> &cls_, const std::string &desc,
                    const std::string &observed = "") {
         viol_total++;
         std::string key = clause; for (auto &c : cls_) key += "|" + c;
